@@ -119,8 +119,7 @@ var c13marshal = Register("C13", "C13.marshal", func(a c13MarshalArgs) *Violatio
 		return violf("MarshalJSON(%s) = %q: digits %q, want %q", n, abbr(s), written, wantDigits)
 	}
 	// direct round trip
-	var u d128.Decimal
-	u = ref.FromBits(0x3040000000000000, 77)
+	u := ref.FromBits(0x3040000000000000, 77)
 	if err := u.UnmarshalJSON(b); err != nil || !u.Equal(d) || u.Signbit() != d.Signbit() {
 		return violf("UnmarshalJSON(MarshalJSON(%s) = %q) = %s, %v", n, abbr(s), ref.Decode(u), err)
 	}
